@@ -82,8 +82,9 @@ ASSUMPTIONS = ["pad fractions whose n*(1+pad)/2 is within 1e-6 of (but not exact
                "session histories keep len(scan_direction_degrees) = number of images and pad_fraction > -1 (shorter angle lists / negative canvases are not modelled)",
                "after a successful align_affine / align_nonrigid the model is not compared until the next preprocess (what the search measured is not replayed on the model)",
                "a min_image_shift within 1e-2 px of the measured shift norm is not replayed on the model (the `<` test would be decided by float noise)"]
-EXPLANATION = ("Theorems in Props/C15.lean are about Model/Drift.lean; every run drives the real drift code and the model with the "
-               "same configurations and compares canvas shapes, knots, coordinates, raw weight maps and measured shifts.")
+EXPLANATION = ("Theorems in Props/C15.lean are about Model/Drift.lean and Model/DriftSession.lean; every run drives the real drift code and the model with the "
+               "same configurations and compares canvas shapes, knots, coordinates, raw weight maps and measured shifts, and runs call histories "
+               "(rejected / raising calls included) on one real object in lockstep with the state machine and with a twin object.")
 
 TOL64 = 1e-9
 TOL32 = 5e-4   # align_translation: the canvases are stored as float32 and np.fft.fft2 keeps them complex64
